@@ -119,7 +119,7 @@ theorem events_csi (p : Parser) (hp : Ground p) (body : Bytes) (fin : UInt8)
   have e1 := adv_ground_esc p hp
   have e2 := adv_esc_bracket
   obtain ⟨ev, ok⟩ := events_params body csiEntryP 0 csiOk_entry hb (by omega)
-  obtain ⟨⟨kind, hk⟩, hg⟩ := adv_csi_final (run csiEntryP body) (0 + seps body) ok (by omega)
+  obtain ⟨⟨kind, hk, _⟩, hg⟩ := adv_csi_final (run csiEntryP body) (0 + seps body) ok (by omega)
     fin.toNat hf1 hf2
   have hkind : csiKind body fin = kind := by
     simp [csiKind, advance, hk]
@@ -129,6 +129,16 @@ theorem events_csi (p : Parser) (hp : Ground p) (body : Bytes) (fin : UInt8)
   refine ⟨?_, ?_⟩
   · simp [List.replicate_succ, advance, hk]
   · simpa [advance] using hg
+
+/-- An SGR sequence (`final = m`) dispatches an `Sgr` element. -/
+theorem csiKind_sgr (body : Bytes) (hwf : (Tok.csi body 0x6d).WF) : ∃ ps, csiKind body 0x6d = .sgr ps := by
+  obtain ⟨hb, hs, hf1, hf2⟩ := hwf
+  obtain ⟨_, ok⟩ := events_params body csiEntryP 0 csiOk_entry hb (by omega)
+  obtain ⟨⟨kind, hk, hm⟩, _⟩ := adv_csi_final (run csiEntryP body) (0 + seps body) ok (by omega)
+    (0x6d : UInt8).toNat hf1 hf2
+  obtain ⟨ps, hps⟩ := hm rfl
+  have hk' : (advanceN (run csiEntryP body) 109).2 = ⟨some kind, 0⟩ := hk
+  exact ⟨ps, by simp [csiKind, advance, hk', hps]⟩
 
 theorem events_osc_put (pl : Bytes) (h : ∀ b ∈ pl, 0x20 ≤ b.toNat) :
     events oscP pl = List.replicate pl.length (⟨none, 0⟩ : Perf) ∧ run oscP pl = oscP := by
